@@ -129,8 +129,10 @@ fn gen(t: &mut Tape, _tier: Tier) -> Scenario {
     opts.store(&mut sc);
     raw.store(&mut sc);
     // reader B: fragmented
-    sc.set_i("rk", [RK_SIM, RK_BUFREADER, RK_SIM][t.below(3) as usize]);
-    sc.set_i("bufcap", t.range(1, 64));
+    let rk = [RK_SIM, RK_BUFREADER, RK_SIM, RK_CHAIN][t.below(4) as usize];
+    sc.set_i("rk", rk);
+    let n = sc.b("input").len() as u64;
+    sc.set_i("bufcap", if rk == RK_CHAIN { t.below(n + 1) } else { t.range(1, 64) });
     let mut script = gen::draw_script(t);
     if script.is_empty() {
         script = vec![1];
@@ -169,6 +171,8 @@ fn exec(sc: &Scenario, ctx: &mut Ctx) -> Vec<Violation> {
     }
     if sc.i("rk") == RK_BUFREADER {
         ctx.stats.hit("arm.std_bufreader_over_short_reads");
+    } else if sc.i("rk") == RK_CHAIN {
+        ctx.stats.hit("arm.std_chain_of_two_slices");
     } else {
         ctx.stats.hit("arm.simsource_scripted_refills");
     }
